@@ -561,3 +561,124 @@ Proof.
   unfold range_pairs_nat. apply Forall_forall. intros ij Hin. apply in_map_iff in Hin.
   destruct Hin as (t & <- & Ht). apply in_seq in Ht. cbn [fst snd]. lia.
 Qed.
+
+(* ---------- assignment and swap between elements of TWO vectors, at the level of the lists ---------- *)
+(* a tuple that has the field sizes of a tuple of another shape description fits that description *)
+Lemma tuple_ok_transfer : forall L fc fc' p p' t t',
+  tuple_ok L fc p t -> tuple_ok L fc' p' t' -> cnts_of t = cnts_of t' -> tuple_ok L fc' p t.
+Proof.
+  induction L as [|q L IH]; intros fc fc' p p' t t' Ht Ht' Hc.
+  - destruct t; [exact I|destruct fc; contradiction].
+  - destruct fc as [|c fc]; [destruct t; contradiction|]. destruct t as [|f t]; [contradiction|].
+    destruct fc' as [|c' fc']; [destruct t'; contradiction|]. destruct t' as [|f' t']; [contradiction|].
+    cbn [tuple_ok] in *. destruct Ht as (Hf & Hl & Hr). destruct Ht' as (_ & Hl' & Hr').
+    unfold cnts_of in Hc. cbn [map] in Hc. inversion Hc as [[Hlen Hrest]].
+    split; [exact Hf|]. split.
+    + destruct (pk q); congruence.
+    + exact (IH fc fc' _ _ t t' Hr Hr' Hrest).
+Qed.
+
+Section TwoVectors.
+  Variable L : list param.
+  Hypothesis Hwf : wf_plist L = true.
+
+  (* the extents of two different elements of a represented vector do not meet *)
+  Lemma elem_extents_disjoint v l offs i k z : RepO L v l offs -> (i < length l)%nat -> (k < length l)%nat -> k <> i ->
+    nth k offs 0 <= z < elem_end L (nth k offs 0) (nth k l []) ->
+    ~ (nth i offs 0 <= z < elem_end L (nth i offs 0) (nth i l [])).
+  Proof.
+    intros R Hi Hk Hki Hz. pose proof (eo_length L _ _ _ _ (r_order _ _ _ _ R)) as Hlen.
+    destruct (Nat.lt_ge_cases k i) as [Hlt|Hge].
+    - pose proof (eo_pair L Hwf _ _ _ _ (r_order _ _ _ _ R) k i ltac:(rewrite Hlen; lia)). lia.
+    - pose proof (eo_pair L Hwf _ _ _ _ (r_order _ _ _ _ R) i k ltac:(rewrite Hlen; lia)). lia.
+  Qed.
+
+  (* replacing the bytes of element i by a tuple of the same shape *)
+  Lemma rep_replace_elem v l offs i t m' : RepO L v l offs -> (i < length l)%nat ->
+    tuple_ok L (fixed_counts L (v_fixed v)) 0 t -> cnts_of t = cnts_of (nth i l []) ->
+    elem_at L m' (nth i offs 0) t ->
+    (forall z, ~ (nth i offs 0 <= z < elem_end L (nth i offs 0) (nth i l [])) -> m' z = v_mem v z) ->
+    RepO L (set_mem v m') (upd i t l) offs.
+  Proof.
+    intros R Hi Ht Hc He Hfr. pose proof (eo_length L _ _ _ _ (r_order _ _ _ _ R)) as Hlen.
+    apply (rep_same_shape L v l offs (upd i t l) m' R).
+    - apply (Forall2_of_nth _ ([] : tuple) ([] : tuple)); [rewrite upd_length; reflexivity|].
+      intros k Hk. cbn beta. rewrite (upd_nth ([] : tuple) i t l k Hi).
+      destruct (Nat.eqb_spec k i) as [->|_]; [exact Hc|reflexivity].
+    - apply (Forall_of_nth _ ([] : tuple)). intros k Hk. rewrite upd_length in Hk. rewrite (upd_nth ([] : tuple) i t l k Hi).
+      destruct (Nat.eqb_spec k i) as [->|_]; [exact Ht|exact (proj1 (rep_ref L Hwf v l offs k R Hk))].
+    - apply (Forall2_of_nth _ 0 ([] : tuple)); [rewrite upd_length; exact Hlen|].
+      intros k Hk. rewrite Hlen in Hk. cbn beta. rewrite (upd_nth ([] : tuple) i t l k Hi).
+      destruct (Nat.eqb_spec k i) as [->|Hne]; [exact He|].
+      destruct (rep_ref L Hwf v l offs k R Hk) as (Htk & Hek & _).
+      apply (elem_at_ext L Hwf (v_mem v) m' _ _ _ Htk); [|exact Hek].
+      intros z Hz. apply Hfr. exact (elem_extents_disjoint v l offs i k z R Hi Hk Hne Hz).
+  Qed.
+
+  Variables (vd vs : vec) (ld ls : list tuple) (od os : list Z).
+  Hypothesis Rd : RepO L vd ld od.
+  Hypothesis Rs : RepO L vs ls os.
+  Variables (i j : nat).
+  Hypothesis Hi : (i < length ld)%nat.
+  Hypothesis Hj : (j < length ls)%nat.
+  Hypothesis Hc : cnts_of (nth i ld []) = cnts_of (nth j ls []).
+
+  Lemma off_ok2 v l offs k : RepO L v l offs -> (k < length l)%nat -> 0 <= nth k offs 0 /\ (SA L | nth k offs 0).
+  Proof.
+    intros R Hk. pose proof (eo_bounds L Hwf _ _ _ _ (r_order _ _ _ _ R)) as Hb.
+    pose proof (eo_length L _ _ _ _ (r_order _ _ _ _ R)) as Hlen.
+    pose proof (Forall2_nth_ _ offs l 0 [] k Hb ltac:(rewrite Hlen; exact Hk)) as H. cbn beta in H. tauto.
+  Qed.
+
+  Lemma end_shift2 : elem_end L (nth i od 0) (nth i ld []) = nth i od 0 + (elem_end L (nth j os 0) (nth j ls []) - nth j os 0).
+  Proof.
+    rewrite (elem_end_cnts L (nth i od 0) (nth j ls []) (nth i ld []) Hc).
+    replace (nth i od 0) with (nth j os 0 + (nth i od 0 - nth j os 0)) at 1 by lia.
+    rewrite (elem_end_shift L Hwf); [lia|].
+    apply Z.divide_sub_r; [exact (proj2 (off_ok2 vd ld od i Rd Hi))|exact (proj2 (off_ok2 vs ls os j Rs Hj))].
+  Qed.
+  Lemma end_shift2' : elem_end L (nth j os 0) (nth j ls []) = nth j os 0 + (elem_end L (nth i od 0) (nth i ld []) - nth i od 0).
+  Proof. rewrite end_shift2. lia. Qed.
+
+  (* vd[i] = vs[j] *)
+  Theorem ref_assign_refines_update_two :
+    let r := ref_assign false L false vd (Z.of_nat i) vs (Z.of_nat j) in
+    RepO L (fst (fst r)) (upd i (nth j ls []) ld) od /\ RepO L (snd (fst r)) ls os.
+  Proof.
+    cbv zeta. unfold ref_assign.
+    destruct (rep_ref L Hwf vd ld od i Rd Hi) as (Hti & Hei & Hfi).
+    destruct (rep_ref L Hwf vs ls os j Rs Hj) as (Htj & Hej & Hfj).
+    rewrite Hfi, Hfj.
+    pose proof (ref_assign_copy L Hwf (nth j ls []) (nth i ld []) _ _ Htj Hti Hc (v_mem vs) (v_mem vd) (nth j os 0) (nth i od 0)
+                  (off_ok2 vs ls os j Rs Hj) (off_ok2 vd ld od i Rd Hi) Hej (bidn (v_bid vs)) (bidn (v_bid vd))) as H.
+    cbv zeta in H.
+    destruct (assign_all false L (bidn (v_bid vs)) (bidn (v_bid vd)) _ _ _ (seq 0 (length L))) as [x evs].
+    cbn [fst snd] in *. destruct H as (Hs & Hel & Hfr). split.
+    - apply rep_replace_elem; auto.
+      + exact (tuple_ok_transfer L _ _ _ _ _ _ Htj Hti (eq_sym Hc)).
+      + intros z Hz. apply Hfr. rewrite <- end_shift2. exact Hz.
+    - apply (rep_mem_ext L Hwf); [exact Rs|]. intros z. rewrite Hs. reflexivity.
+  Qed.
+
+  (* swap(vd[i], vs[j]) *)
+  Theorem ref_swap_refines_exchange_two :
+    let r := ref_swap L false vd (Z.of_nat i) vs (Z.of_nat j) in
+    RepO L (fst (fst r)) (upd i (nth j ls []) ld) od /\ RepO L (snd (fst r)) (upd j (nth i ld []) ls) os.
+  Proof.
+    cbv zeta. unfold ref_swap.
+    destruct (rep_ref L Hwf vd ld od i Rd Hi) as (Hti & Hei & Hfi).
+    destruct (rep_ref L Hwf vs ls os j Rs Hj) as (Htj & Hej & Hfj).
+    rewrite Hfi, Hfj.
+    pose proof (ref_swap_exchanges L Hwf (nth j ls []) (nth i ld []) _ _ Htj Hti Hc (v_mem vs) (v_mem vd) (nth j os 0) (nth i od 0)
+                  (off_ok2 vs ls os j Rs Hj) (off_ok2 vd ld od i Rd Hi) Hej Hei (bidn (v_bid vs)) (bidn (v_bid vd))) as H.
+    cbv zeta in H.
+    destruct (swap_all L (bidn (v_bid vs)) (bidn (v_bid vd)) _ _ _ (seq 0 (length L))) as [x evs].
+    cbn [fst snd] in *. destruct H as (H1 & H2 & H3 & H4). split.
+    - apply rep_replace_elem; auto.
+      + exact (tuple_ok_transfer L _ _ _ _ _ _ Htj Hti (eq_sym Hc)).
+      + intros z Hz. apply H4. rewrite <- end_shift2. exact Hz.
+    - apply rep_replace_elem; auto.
+      + exact (tuple_ok_transfer L _ _ _ _ _ _ Hti Htj Hc).
+      + intros z Hz. apply H3. replace (nth j os 0 + (elem_end L (nth j os 0) (nth j ls []) - nth j os 0)) with (elem_end L (nth j os 0) (nth j ls [])) by lia. exact Hz.
+  Qed.
+End TwoVectors.
